@@ -25,7 +25,8 @@ THEOREMS = [
     "TornadoModel.C28.handleDeco_auth_login_url",
 ]
 TRUSTED = [
-    "routing through `(.*)`, `/(.*)`, `/*(.*)`, `<prefix>(.*)` is modelled as the captured group (C26.capture); argument decoding as in C26",
+    "routing through `(.*)`, `/(.*)`, `/*(.*)`, `<prefix>(.*)` is modelled as the captured group (C26.capture); argument decoding and the "
+    "request-line grammar (`C26.validTarget`) as in C26",
     "urllib.parse.urlencode/quote_plus and urlsplit(login_url).scheme (computed by the harness for the configured login URL) as modelled in C28/Model.lean",
     "the static directory redirect is the C26 model (posixpath, fixture tree as filesystem parameter)",
 ]
